@@ -1883,7 +1883,7 @@ func AggrFuncArgReader(query *Query, current Map, exprs sqlparser.Exprs, opts ..
 					data = slice
 				}
 			}
-			rs, err := ExecReader(data, string(columnName))
+			rs, err := columnOfRows(query, data, string(columnName))
 			if err != nil {
 				return nil, err
 			}
@@ -1923,7 +1923,7 @@ func ExecGroupBy(query *Query, current []any) ([]any, error) {
 	for _, item := range current {
 		innerMap := make(map[string]any)
 		for key := range query.groupDefinition {
-			rs, err := ExecReader(item, key)
+			rs, err := columnOfRows(query, item, key)
 			if err != nil {
 				return nil, err
 			}
